@@ -117,10 +117,12 @@ def build_lib(config="mpz", hooks=True, log=None):
     with Lock("lib-" + config):
         if os.path.exists(lib):
             return libdir
-        # drop stale caches of this config (disk is limited)
-        for old in glob.glob(os.path.join(BUILD, "lib-%s-*" % config)):
-            if old != libdir:
-                shutil.rmtree(old, ignore_errors=True)
+        # drop stale caches of this config (disk is limited), keeping the most recent few: other
+        # checks (or scratch trees selected with VERIF_REPO) may be using them right now
+        olds = sorted((o for o in glob.glob(os.path.join(BUILD, "lib-%s-*" % config)) if o != libdir),
+                      key=lambda o: os.path.getmtime(o), reverse=True)
+        for old in olds[6:]:
+            shutil.rmtree(old, ignore_errors=True)
         os.makedirs(libdir, exist_ok=True)
         _config_dir(libdir, config)
         srcs = lib_sources()
@@ -257,6 +259,9 @@ def print_assumptions(module, thms):
             if os.path.exists(q):
                 try: os.remove(q)
                 except OSError: pass
+    for q in glob.glob(os.path.join(BUILD, ".assum_*%d*.aux" % os.getpid())):
+        try: os.remove(q)
+        except OSError: pass
     res = {}
     if rc != 0:
         return None, out
